@@ -761,7 +761,7 @@ for _d in range(30):
         # the offset round trip (sph_coo then hash_with_dxdy of an arbitrary interior offset) needs real-arithmetic reasoning on the
         # scaled coordinates: 25+ min at depth 0, thorough tier only
         tq = (Q if _d in (0, 1, 2) else T) if part != 1 else (T if _d in (0, 1) else X)   # depth 29: 35+ min per harness, thorough
-        _c03.append(H('c03_%s_d%d' % (pn, _d), 'k_c03_cell(%d, %d);' % (_d, part), tiers=tq, timeout=(2400 if _d < 17 else 4800), mem_gb=8, unwind=3, unwindset=_c03_us(_d), stubs=_C03_INTERIOR(),
+        _c03.append(H('c03_%s_d%d' % (pn, _d), 'k_c03_cell(%d, %d);' % (_d, part), tiers=tq, timeout=(2400 if _d < 17 else 4800), mem_gb=(5 if _d < 17 else 8), unwind=3, unwindset=_c03_us(_d), stubs=_C03_INTERIOR(),
                       inputs=[('h', 'u64'), ('dxk', 'u32'), ('dyk', 'u32')], replay='c03_cell', replay_const={'depth': _d},
                       covers=['cell at the north pole', 'west half of base cell 4 (negative x before wrapping)'] if _d > 0 else ['cell at the north pole'],
                       domain='depth %d: every cell%s (plane cut): %s' % (_d, ', offsets k/1024 with k symbolic in 1..=1023' if part == 1 else '', pn)))
@@ -775,8 +775,8 @@ for _d in range(30):
                 bname = 'other' if b == 255 else 'b%d' % b
                 _c03.append(H('c03_%s_%s_%s_d%d' % (pn, bn, bname, _d), 'k_c03_image(%d, %d, %d, %d);' % (_d, band, b, part),
                               # border classes take 5-14 min each: one north and one south class at depth 0 in the quick tier
-                              tiers=(((Q if (_d == 0 and b in (0, 8)) else T) if _d in (0, 1, 2) else X) if part == 1 else (T if _d == 0 else X)),
-                              timeout=(1200 if (part == 1 and _d == 0) else 2400 if part == 1 else 3600), mem_gb=8, unwind=3,
+                              tiers=(((Q if (_d == 0 and b in (0, 8) and band != 1) else T) if _d in (0, 1, 2) else X) if part == 1 else (T if _d == 0 else X)),
+                              timeout=(1200 if (part == 1 and _d == 0) else 2400 if part == 1 else 3600), mem_gb=6, unwind=3,
                               unwindset=_c03_us(_d), stubs=_PLANE_CUT_N('verif_c03'), inputs=[('x', 'f64'), ('y', 'f64')], replay='c03_pullback', replay_const={'depth': _d},
                               covers=(['a point of the band is mapped to the base cell'] if (b != 255 and part == 0) else []),
                               domain='depth %d: every double point of the HEALPix image (x in [0, 8]) with y in the %s band that hash_with_dxdy maps %s, %s' % (
@@ -784,12 +784,12 @@ for _d in range(30):
                                   'offsets in [0, 1): sph_coo gives the point back' if part == 0 else 'an offset equal to 1 or below 0: the cell contains the point (plane oracle)')))
 for _d in range(30):
     for band, bn in ((0, 'npc'), (1, 'eqr'), (2, 'spc')):
-        _c03.append(H('c03_range_%s_d%d' % (bn, _d), 'k_c03_range(%d, %d);' % (_d, band), tiers=Q if (_d in (0, 29) and band != 2) else T, timeout=2400, mem_gb=6, unwind=3,   # south band: 13-17 min
+        _c03.append(H('c03_range_%s_d%d' % (bn, _d), 'k_c03_range(%d, %d);' % (_d, band), tiers=Q if (_d in (0, 29) and band != 2) else T, timeout=2400, mem_gb=5, unwind=3,   # south band: 13-17 min
                       unwindset=_c03_us(_d), stubs=_PLANE_CUT_N('verif_c03'), inputs=[('x', 'f64'), ('y', 'f64')], replay='c03_pullback', replay_const={'depth': _d},
                       covers=['x = 4 (seam or base cell corner line)', 'x = 8'],
                       domain='depth %d: every double point of the HEALPix image (x in [0, 8]) with y in the %s band: cell number in range, offsets in [0, 1]' % (_d, bn)))
 for w in range(9):
-    _c03.append(H('c03_guard_%d' % w, 'k_c03_guard(2, %d);' % w, tiers=Q, timeout=600, mem_gb=6, should_panic=True, unwind=5, stubs=_LIBM,
+    _c03.append(H('c03_guard_%d' % w, 'k_c03_guard(2, %d);' % w, tiers=Q, timeout=600, mem_gb=4, should_panic=True, unwind=5, stubs=_LIBM,
                   inputs=[('h', 'u64')], replay='c03_guard', replay_const={'depth': 2, 'which': w}, never=['guard bypassed'],
                   domain='depth 2: every cell number >= 192, accessor %d' % w))
 PROPS['C03'] = dict(
